@@ -127,7 +127,7 @@ def peerBytes (p : Peer) : Bytes := p.ip ++ be16 (p.port % 2^16)
 /-- `WriteAnnounce(w, txID, resp, v6Action, v6Peers)` -/
 def writeAnnounce (tx : Bytes) (r : AnnResp) (v6Action v6Peers : Bool) : Bytes :=
   header (if v6Action then 4 else 1) tx ++
-  be32 ((r.interval / 1000000000) % 2^32).toNat ++ be32 (r.incomplete % 2^32) ++ be32 (r.complete % 2^32) ++
+  be32 ((Int.tdiv r.interval 1000000000) % 2^32).toNat ++ be32 (r.incomplete % 2^32) ++ be32 (r.complete % 2^32) ++
   ((if v6Peers then r.v6peers else r.v4peers).flatMap peerBytes)
 
 def scrapeBytes (s : Scrape) : Bytes :=
